@@ -417,12 +417,28 @@ def workload_pfaffian(ctx, rng, mods, count, value_oracle=True):
         if kind == "zero-pivot" and n >= 2:
             S[0, 1] = S[1, 0] = 0.0  # forces a pivot search in Parlett-Reid
         prec = "f" if rng.random() < 0.2 else "d"
+        # "every matrix": overall and per-mode scalings (the Pfaffian is homogeneous, the tolerance is relative to the
+        # envelope of the defining sum, so a kernel with an absolute pivot threshold shows up here); the scale is kept
+        # where neither the value nor the running product leaves the normal range of the precision
+        scaled = ""
+        if n >= 2 and rng.random() < 0.35:
+            lim = 20.0 if prec == "f" else 200.0
+            e = float(rng.choice([-12, -9, -6, -3, 3, 6]))
+            if rng.random() < 0.5:
+                if abs(e) * (n / 2) <= lim:
+                    S = S * 10.0 ** e
+                    scaled = "|scaled1e%d" % int(e)
+            elif abs(e) <= lim:
+                D = np.ones(n)
+                D[-2:] = 10.0 ** e
+                S = D[:, None] * S * D[None, :]
+                scaled = "|dad1e%d" % int(e)
         dt = np.float32 if prec == "f" else np.float64
         Sin = np.ascontiguousarray(S.astype(dt))
         lay = "c"
         if n > 0 and rng.random() < 0.3:
             lay, Sin = layouts(rng, Sin)
-        cls = "n%d|%s|%s|%s" % (n, kind, prec, lay)
+        cls = "n%d|%s|%s|%s%s" % (n, kind, prec, lay, scaled)
         case = enc_case("pfaffian", S, {"prec": prec, "layout": lay})
         try:
             got = P.pfaffian(Sin)
@@ -513,7 +529,7 @@ def parse_sanitizer_logs(paths_or_text):
 
 
 # ----------------------------------------------------------------------------- tsan driver
-def write_driver_cases(path, rng, count, meta=None):
+def write_driver_cases(path, rng, count, meta=None, with_ffi=False):
     lines = []
     n_cases = 0
     for it in range(count):
@@ -539,7 +555,7 @@ def write_driver_cases(path, rng, count, meta=None):
             n_cases += 1
     # batched XLA-FFI backward handler (src/jax_perm/jax_perm_core.cpp: `omp parallel for` over the
     # batch, each element calling grad_perm, itself parallel) and the unbatched FFI forward handler
-    for it in range(max(2, count // 12)):
+    for it in range(max(2, count // 12) if with_ffi else 0):
         n = int(rng.integers(1, 4))
         batch = int(rng.choice([1, 2, 3, 5, 8]))
         total = int(rng.integers(1, 6))
@@ -622,7 +638,7 @@ def run_tsan(ctx, rng, spec):
     work = os.path.join(boot.BUILD, "run", "c04-tsan-%d" % os.getpid())
     os.makedirs(work, exist_ok=True)
     casefile = os.path.join(work, "cases.txt")
-    n = write_driver_cases(casefile, rng, int(spec["count"]))
+    n = write_driver_cases(casefile, rng, int(spec["count"]), with_ffi=True)
     base = None
     hwcs = spec["hwc"]
     for hwc in hwcs:
